@@ -30,17 +30,24 @@ def node(name, labels=None, taints=None, annotations=None):
 
 
 def template(containers=("main",), image="img:1", node_selector=None, terms=None, tolerations=None, labels=None,
-             resources=None, name=None):
+             resources=None, name=None, annotations=None, preferred_only=False):
     spec = {"containers": [{"name": c, "image": image, "resources": (resources or {}).get(c, {})} for c in containers]}
     if node_selector:
         spec["nodeSelector"] = node_selector
     if terms is not None:
         spec["affinity"] = {"nodeAffinity": {"requiredDuringSchedulingIgnoredDuringExecution": {"nodeSelectorTerms": terms}}}
+    elif preferred_only:
+        # an affinity block without required terms (a preference only, or an empty nodeAffinity): it restricts nothing
+        spec["affinity"] = {"nodeAffinity": {"preferredDuringSchedulingIgnoredDuringExecution": [
+            {"weight": 1, "preference": {"matchExpressions": [{"key": "zone", "operator": "In", "values": ["a"]}]}}]}} \
+            if preferred_only == "preferred" else {"nodeAffinity": {}}
     if tolerations:
         spec["tolerations"] = tolerations
     md = {"labels": dict(labels or {"app": "agent"})}
     if name:
         md["name"] = name
+    if annotations:
+        md["annotations"] = dict(annotations)
     return {"metadata": md, "spec": spec}
 
 
